@@ -194,16 +194,29 @@ def _writer_forms(m, wf, key):
                 val = mv.value if isinstance(mv, ast.Constant) else None
             if isinstance(val, str) and "@" in val:
                 fmt.append(n)
-    ts = [c for c in ast.walk(loop) if isinstance(c, ast.Call) and isinstance(c.func, ast.Attribute) and c.func.attr in (
-        "fromtimestamp", "utcfromtimestamp")]
+    # the sub-directory's start second: the argument of fromtimestamp(ts, ...) or of `<epoch> + datetime.timedelta(seconds=ts)`
+    class _TS(object):
+        def __init__(self, node, arg):
+            self.node, self.args, self.lineno = node, [arg], node.lineno
+    ts = [_TS(c, c.args[0]) for c in ast.walk(loop) if isinstance(c, ast.Call) and isinstance(c.func, ast.Attribute) and c.func.attr in (
+        "fromtimestamp", "utcfromtimestamp") and c.args]
+    for b_ in ast.walk(loop):
+        if isinstance(b_, ast.BinOp) and isinstance(b_.op, ast.Add):
+            for side in (b_.left, b_.right):
+                if isinstance(side, ast.Call) and pyfront.call_name(side) == "datetime.timedelta" and not side.args \
+                        and [k.arg for k in side.keywords] == ["seconds"]:
+                    v = side.keywords[0].value
+                    if isinstance(v, ast.Call) and pyfront.call_name(v) == "int" and len(v.args) == 1:
+                        v = v.args[0]
+                    ts.append(_TS(b_, v))
     if len(fmt) != 1 or not isinstance(fmt[0].right, ast.Tuple) or len(fmt[0].right.elts) != 2 or len(ts) != 1:
-        raise AnalysisError("%s: file-name format / fromtimestamp not found exactly once" % m.qualname)
+        raise AnalysisError("%s: file-name format / sub-directory time (fromtimestamp or epoch + timedelta(seconds=)) not found exactly once" % m.qualname)
     # evaluate the two arguments at their program points
     envf = pysym.Env(env); envf.branch_dependent = getattr(env, 'branch_dependent', frozenset()); envf[idx] = kbody
     envf = pysym.seq_env(loop.body, envf, stop=m.enclosing(fmt[0], (ast.stmt,)))
     file_c = pysym.canon(pysym.subst(fmt[0].right.elts[1], envf))
     envs = pysym.Env(env); envs.branch_dependent = getattr(env, 'branch_dependent', frozenset()); envs[idx] = kbody
-    envs = pysym.seq_env(loop.body, envs, stop=m.enclosing(ts[0], (ast.stmt,)))
+    envs = pysym.seq_env(loop.body, envs, stop=m.enclosing(ts[0].node, (ast.stmt,)))
     sub_c = pysym.canon(pysym.subst(ts[0].args[0], envs))
     return loop, idx, file_c, sub_c, fmt[0], ts[0]
 
